@@ -1,5 +1,7 @@
 import DcmVerif.Props.Source_dicts
 import DcmVerif.Props.Source_insert
+import DcmVerif.Props.Source_content
+import DcmVerif.Props.Source_insertall
 import DcmVerif.Props.Source_values
 import DcmVerif.Props.Source_classes
 import DcmVerif.Props.Source_simplify
